@@ -5,7 +5,7 @@
 Require Extraction.
 Require Import ExtrOcamlBasic.
 From Coq Require Import ZArith.
-From BE Require Model.Timer Model.Regs Model.Decode Model.Lcd Model.Kbd.
+From BE Require Model.Timer Model.Regs Model.Decode Model.Lcd Model.Kbd Model.Sched.
 Extraction Language OCaml.
 
 Definition timer_py_run := Timer.py_run.
@@ -28,9 +28,13 @@ Definition lcd_rs_run := Lcd.rs_run.
 Definition kbd_py_run (cfg : Kbd.kcfg) := Kbd.py_run cfg (Kbd.py_init cfg).
 Definition kbd_rs_run (cfg : Kbd.kcfg) (irq : bool) := Kbd.rs_run cfg irq Kbd.rs_init.
 
+Definition sched_spawn_all := Sched.spawn_all.
+Definition sched_drive := Sched.drive.
+
 Extraction "Extract/model.ml"
   BinInt.Z.add timer_py_run timer_rs_run timer_py_init timer_rs_init
   regs_py_run regs_rs_run
   dec_decode dec_encode dec_info dec_text dec_llil dec_emu
   lcd_py_run lcd_rs_run
-  kbd_py_run kbd_rs_run.
+  kbd_py_run kbd_rs_run
+  sched_spawn_all sched_drive.
